@@ -6,6 +6,15 @@ command -v java >/dev/null || { echo "java missing"; exit 1; }
 [ -x /venv/bin/python ] || { echo "/venv/bin/python missing"; exit 1; }
 mkdir -p .work evidence replays spec/gen
 /venv/bin/python -m compileall -q harness tools >/dev/null || exit 1
+# generated modules are rebuilt by the checks; stubs let SANY parse the specifications that EXTEND them
+[ -f spec/gen/C12_Items.tla ] || cat > spec/gen/C12_Items.tla <<'EOT'
+------------------------------ MODULE C12_Items ------------------------------
+EXTENDS Naturals, Sequences, TLC
+cImports == <<>>
+cBase == {}
+cItems == <<>>
+=============================================================================
+EOT
 rc=0
 for f in spec/lib/*.tla spec/*.tla; do
   out=$(cd "$(dirname "$f")" && java -DTLA-Library=/verif/spec/lib:/verif/spec:/verif/spec/gen -cp /opt/veriftools/tla/tla2tools.jar:/opt/veriftools/tla/CommunityModules-deps.jar tla2sany.SANY "$(basename "$f")" 2>&1)
